@@ -57,7 +57,7 @@ func (c *regexpSimplifyChecker) VisitExpr(x ast.Expr) {
 		return
 	}
 
-	switch qualifiedName(call.Fun) {
+	switch resolvedQualifiedName(c.ctx, call.Fun) {
 	case "regexp.Compile", "regexp.MustCompile":
 		cv := c.ctx.TypesInfo.Types[call.Args[0]].Value
 		if cv == nil || cv.Kind() != constant.String {
